@@ -55,8 +55,16 @@ fn neutralise(src: &str) -> String {
     src.replace("selene", "xelene")
 }
 
-fn checker(cfg: &[(String, LintVariation)]) -> Checker<toml::value::Value> {
-    let mut c: CheckerConfig<toml::value::Value> = CheckerConfig::default();
+/// lint settings ([config]) that differ from the defaults: the severities must not influence how a lint is set up
+const SETTINGS: [&str; 4] = [
+    "",
+    "[config]\nunused_variable = { ignore_pattern = \"^v1$\" }\n",
+    "[config]\nshadowing = { ignore_pattern = \"^v0$\" }\nunused_variable = { ignore_pattern = \"^w$\", allow_unused_self = false }\n",
+    "[config]\nempty_if = { comments_count = true }\nunused_variable = { ignore_pattern = \"^v[02]$\" }\n",
+];
+
+fn checker(cfg: &[(String, LintVariation)], settings: &str) -> Checker<toml::value::Value> {
+    let mut c: CheckerConfig<toml::value::Value> = toml::from_str(settings).unwrap();
     for (k, v) in cfg {
         c.lints.insert(k.clone(), *v);
     }
@@ -68,7 +76,7 @@ pub fn generate(seed: u64, n: usize, _thorough: bool) -> Cases {
     let mut rng = Rng::new(seed);
     let names = lint_names();
     let fx = fixtures();
-    let base = checker(&[]);
+    let bases: Vec<Checker<toml::value::Value>> = SETTINGS.iter().map(|t| checker(&[], t)).collect();
     for i in 0..n {
         let mut r = rng.fork(i as u64);
         let (src, shapes, nf) = if r.chance(1, 4) && !fx.is_empty() {
@@ -104,7 +112,9 @@ pub fn generate(seed: u64, n: usize, _thorough: bool) -> Cases {
                 cfg.push((name.clone(), v));
             }
         }
-        let ck = checker(&cfg);
+        let which = if r.chance(1, 2) { 0 } else { r.below(SETTINGS.len()) };
+        let base = &bases[which];
+        let ck = checker(&cfg, SETTINGS[which]);
         let raw = match catch_unwind(AssertUnwindSafe(|| base.test_on(&ast2))) { Ok(v) => v, Err(_) => continue };
         let imp = match catch_unwind(AssertUnwindSafe(|| ck.test_on(&ast))) { Ok(v) => v, Err(_) => continue };
         let imp_plain = match catch_unwind(AssertUnwindSafe(|| ck.test_on(&ast2))) { Ok(v) => v, Err(_) => continue };
@@ -136,9 +146,9 @@ pub fn generate(seed: u64, n: usize, _thorough: bool) -> Cases {
         };
         let cfg_term = glist(cfg.iter(), |(k, v)| format!("({}, {})", gstr(k), match v { LintVariation::Allow => "VAllow", LintVariation::Deny => "VDeny", LintVariation::Warn => "VWarn" }));
         cases.push(
-            format!("CCfg {} {} {} {} {} {}", cfg_term, events_term(&ast), gopt(verif::first_code_range(&ast), grange), found_term, term_of(&imp), term_of(&imp_plain)),
+            format!("CCfg {} {} {} {} {} {}", cfg_term, events_term(&ast), gopt(crate::c08::first_code_of(&ast), grange), found_term, term_of(&imp), term_of(&imp_plain)),
             json!({"kind": if nf > 0 { "with-filters" } else { "plain" }, "source": src, "shapes": shapes,
-                   "config": cfg.iter().map(|(k, v)| format!("{k}={v:?}")).collect::<Vec<_>>(), "config_mode": mode,
+                   "config": cfg.iter().map(|(k, v)| format!("{k}={v:?}")).collect::<Vec<_>>(), "config_mode": mode, "settings": SETTINGS[which],
                    "found": raw.len(), "visible": imp.iter().filter(|d| d.severity != selene_lib::lints::Severity::Allow).count(),
                    "nontrivial": !raw.is_empty()}),
         );
